@@ -122,3 +122,61 @@ def done_rec(node: Node, cfg: Set[str]) -> bool:
         regs = [c for c in node.children if c.kind != "history"]
         return bool(regs) and all(done_rec(c, cfg) for c in regs)
     return False
+
+
+def guard_true(guard, gtable) -> bool:
+    """Truth of a generated guard (atom name or None) under a table; raise counts as false."""
+    if guard is None:
+        return True
+    if isinstance(guard, str):
+        return gtable.get(guard, False) is True
+    raise TypeError("composite guards are evaluated by eval_guard")
+
+
+def on_index(case):
+    """node id -> {event key -> [Trans in declaration order]} for kind == 'on'."""
+    idx = getattr(case, "_on_index", None)
+    if idx is None:
+        idx = {}
+        for t in case.trans:
+            if t.kind == "on":
+                idx.setdefault(t.source.id, {}).setdefault(t.event, []).append(t)
+        case._on_index = idx
+    return idx
+
+
+def nominees(case, cfg, etype: str, gtable) -> list:
+    """Transitions nominated for `etype` in configuration `cfg` (statement of C02).
+
+    Per active atomic state: walk self -> root; at each level try the matching
+    descriptor keys most specific first and, within a key, candidates in
+    declaration order; the first enabled candidate of the first level that has
+    one is nominated; a null (forbidden) transition stops the walk.
+    De-duplicated by identity (a handler on a shared ancestor is nominated once).
+    """
+    tree = case.tree
+    idx = on_index(case)
+    out = []
+    for leaf in sorted(leaves(tree, cfg), key=lambda n: n.id):
+        node = leaf
+        while node is not None:
+            onmap = idx.get(node.id, {})
+            chosen, blocked = None, False
+            for k in match_descriptors(onmap.keys(), etype):
+                for t in onmap[k]:
+                    if t.forbidden:
+                        blocked = True
+                        break
+                    if guard_true(t.guard, gtable):
+                        chosen = t
+                        break
+                if blocked or chosen is not None:
+                    break
+            if chosen is not None:
+                if not any(chosen is x for x in out):
+                    out.append(chosen)
+                break
+            if blocked:
+                break
+            node = node.parent
+    return out
